@@ -303,7 +303,8 @@ def answer (ws : List String) : String :=
         let trace := a.trace.reverse
         let wins := a.inWindow.reverse
         let undec := a.undecAt.reverse
-        let origins := ops.any (fun o => !o.decodable)
+        let origins := ops.any (fun o => !o.thePin.opts.origins.isEmpty)
+        let undef := ops.any (fun o => o.thePin.cid == undefCid || o.thePin.ref == some undefCid)
         let arm := "arm=" ++ kind ++ " " ++ " ".intercalate (a.feats.map (fun f => "arm=" ++ kind ++ "+" ++ f))
         if a.beyond then "bad-case beyond-model (op applied on a poisoned FSM)" else
         -- The part of the history before the first observation touched by a recorded defect (an
@@ -317,6 +318,7 @@ def answer (ws : List String) : String :=
           let window := !bad.isEmpty && bad.all (·.2)
           "propfail " ++ ",".intercalate (failed.map (·.1)) ++ " " ++ arm ++
             " window=" ++ (if window then "1" else "0") ++ " origins=" ++ (if orig then "1" else "0") ++
+            (if undef then " undef=1" else "") ++
             " order=" ++ (if tr.all (trackerOrderOk ops) || failed.any (fun c => c.1 != "tracker_order") then "1" else "0") ++
             -- does the implementation behave exactly as the model (which includes the recorded defects) predicts?
             " agree=" ++ (if a.firstDiff.isNone then "1" else "0")
